@@ -266,7 +266,7 @@ type sqCfg struct {
 
 func (g *sqGen) id(p string) string { g.n++; return fmt.Sprintf("%s%d", p, g.n) }
 
-var sqTypes = []string{"integer", "text", "real", "blob", "numeric", "boolean", "datetime", "varchar(20)", "int", "bigint", "decimal(10,2)", "date", "json"}
+var sqTypes = []string{"integer", "text", "real", "blob", "numeric", "boolean", "datetime", "varchar(20)", "int", "bigint", "decimal(10,2)", "date", "json", "Point", "MONEY"} // the last two: user-defined names Atlas keeps verbatim
 var sqStrictTypes = []string{"integer", "text", "real", "blob", "int", "any"}
 var sqActions = []string{"", "NO ACTION", "CASCADE", "SET NULL", "RESTRICT", "SET DEFAULT"}
 
@@ -367,11 +367,16 @@ func (g *sqGen) newTable() *sqTable {
 	}
 	// checks
 	if g.r.Chance(1, 3) {
-		ck := sqCheck{Expr: "id >= 0"}
-		if g.r.Chance(1, 2) {
-			ck.Name = g.id("ck")
+		// one to three checks, named or not (several unnamed ones in one table included)
+		exprs := []string{"id >= 0", "id * 1 >= 0", "id <> -1", "id + 1 > 0"} // (never the `id > -N` of the add-check edit: a duplicated expression is one constraint)
+		hx.Shuffle(g.r, exprs)
+		for _, x := range exprs[:1+g.r.Intn(3)] {
+			ck := sqCheck{Expr: x}
+			if g.r.Chance(1, 3) {
+				ck.Name = g.id("ck")
+			}
+			t.Checks = append(t.Checks, ck)
 		}
-		t.Checks = append(t.Checks, ck)
 	}
 	return t
 }
